@@ -604,16 +604,16 @@ func ApplyDefect(c *Chooser, d Doc, kind, posClass int) []byte {
 		return append(out, b[off+n:]...)
 	}
 	anyOff := func() int {
-		switch posClass {
-		case 0:
-			return c.Intn("off", min(len(b), 64))
-		case 1:
-			return len(b)/2 + c.Intn("off", min(len(b)/2+1, 64))
-		case 2:
-			return len(b) - 1 - c.Intn("off", min(len(b), 64))
+		o := anyOffRaw(c, len(b), posClass)
+		if o >= len(b) {
+			o = len(b) - 1
 		}
-		return c.Intn("off", len(b))
+		if o < 0 {
+			o = 0
+		}
+		return o
 	}
+	_ = anyOff
 	switch kind {
 	case DefCtrlInString:
 		if o := pickSite(c, d, posClass, siteStringBody, siteStringEnd); o >= 0 {
@@ -677,4 +677,19 @@ func ApplyDefect(c *Chooser, d Doc, kind, posClass int) []byte {
 		return append([]byte(nil), b[:len(b)-1]...)
 	}
 	return []byte{}
+}
+
+func anyOffRaw(c *Chooser, n, posClass int) int {
+	if n == 0 {
+		return 0
+	}
+	switch posClass {
+	case 0:
+		return c.Intn("off", min(n, 64))
+	case 1:
+		return n/2 + c.Intn("off", min(n/2+1, 64))
+	case 2:
+		return n - 1 - c.Intn("off", min(n, 64))
+	}
+	return c.Intn("off", n)
 }
